@@ -232,6 +232,14 @@ class Maker:
     def note(self, s):
         self.notes.append(s)
 
+    def lemma(self, name, cond):
+        """an obligation that, once posted, is also available as a hypothesis to the later
+        obligations of this path (proof guidance: it is itself proved under the hypotheses
+        that precede it, so nothing is assumed without proof)"""
+        self.require('lemma: ' + name, cond)
+        if self.sym and isinstance(cond, SymBool):
+            symx.ctx().assume(cond.t)
+
 
 # --------------------------------------------------------------------------
 # model -> concrete inputs
@@ -303,7 +311,7 @@ def _robust_constraints(inputs):
     return cs
 
 
-def _try_candidates(res, h, inputs, hyps_base, neg, obname, key, timeout_ms, prop):
+def _try_candidates(res, h, inputs, hyps_base, neg, obname, key, timeout_ms, prop, ints=()):
     """A sat answer was seen for hyps ∧ neg.  Look for a model that replays on the real
     library.  Records a violation / known finding / inconclusive entry."""
     attempts = []
@@ -317,10 +325,16 @@ def _try_candidates(res, h, inputs, hyps_base, neg, obname, key, timeout_ms, pro
     tried = 0
     for extra in variants:
         for seed in (0, 7):
-            r, mdl = solve.check_sat(hyps_base + extra + [neg], timeout_ms, seed=seed)
+            fs = hyps_base + extra + [neg]
+            inp = inputs
+            if ints:
+                subs = [(v, z3.ToReal(z3.Int(str(v) + '_int'))) for v in ints]
+                fs = [z3.substitute(f, *subs) for f in fs]
+                inp = [(n_, k_, (z3.substitute(i_, *subs) if k_ in ('real', 'int') else i_)) for n_, k_, i_ in inputs]
+            r, mdl = solve.check_sat(fs, timeout_ms, seed=seed)
             if r != 'sat':
                 continue
-            vals = concrete_inputs(inputs, mdl)
+            vals = concrete_inputs(inp, mdl)
             if vals.pop('__nonintegral__', False):
                 continue
             tried += 1
@@ -354,7 +368,7 @@ def atom_links(c):
     return out
 
 
-def run_case(prop, name, h, timeout_ms=30000, max_paths=400, allow_exceptions=()):
+def run_case(prop, name, h, timeout_ms=30000, max_paths=400, allow_exceptions=(), shard=None):
     """Symbolically explore harness h; discharge every obligation on every path.
     Returns a picklable CaseResult."""
     t0 = time.time()
@@ -382,13 +396,14 @@ def run_case(prop, name, h, timeout_ms=30000, max_paths=400, allow_exceptions=()
         res['inconclusive'].append(f'path cap {max_paths} hit')
     res['paths'] = len(paths)
     seen_keys = set()
+    ob_index = [0]
     for p in paths:
         m = p.ctx.maker
         for n in m.notes:
             if n not in res['notes']:
                 res['notes'].append(n)
         base = p.defs + [symx.PI_BOUNDS]
-        ints = [v == z3.ToReal(z3.Int(str(v) + '_int')) for v in p.ctx.ints.values()]
+        ints = list(p.ctx.ints.values())
         if p.kind == 'exc' and not isinstance(p.value, tuple(allow_exceptions)):
             res['exc_paths'] += 1
             tb = f'{type(p.value).__name__}: {p.value}'
@@ -396,8 +411,8 @@ def run_case(prop, name, h, timeout_ms=30000, max_paths=400, allow_exceptions=()
                 traceback.print_exception(type(p.value), p.value, p.value.__traceback__)
             r, mdl = solve.check_sat(p.pc + base + [solve.MARGIN == 0], timeout_ms)
             if r == 'sat':
-                _try_candidates(res, h, m.inputs, p.pc + base + ints, z3.BoolVal(True),
-                                f'unexpected-exception {tb[:160]}', None, timeout_ms, prop)
+                _try_candidates(res, h, m.inputs, p.pc + base, z3.BoolVal(True),
+                                f'unexpected-exception {tb[:160]}', None, timeout_ms, prop, ints)
             elif r == 'unknown':
                 res['inconclusive'].append(f'exception path of unknown feasibility: {tb[:200]}')
             continue
@@ -406,8 +421,8 @@ def run_case(prop, name, h, timeout_ms=30000, max_paths=400, allow_exceptions=()
             res['safety'] += 1
             r, mdl = solve.prove(p.pc[:plen] + base + [solve.MARGIN == 0], f, timeout_ms, link=base + atom_links(p.ctx))
             if r == 'cex':
-                _try_candidates(res, h, m.inputs, p.pc[:plen] + base + ints, z3.Not(f),
-                                f'safety: {what}', None, timeout_ms, prop)
+                _try_candidates(res, h, m.inputs, p.pc[:plen] + base, z3.Not(f),
+                                f'safety: {what}', None, timeout_ms, prop, ints)
             elif r == 'unknown':
                 res['inconclusive'].append(f'safety obligation unknown: {what}')
         if not m.obligations:
@@ -419,14 +434,27 @@ def run_case(prop, name, h, timeout_ms=30000, max_paths=400, allow_exceptions=()
         for (obname, plen, term, key) in m.obligations:
             if len(res['violations']) >= 2:
                 break
+            ob_index[0] += 1
+            if shard is not None and ob_index[0] % shard[1] != shard[0]:
+                continue
             res['obligations'] += 1
-            hyps = p.pc[:plen] + base
+            hyps = p.pc[:plen] + solve.needed_defs(base, p.pc[:plen] + [term])
             before = solve.STATS.trivial
             r, mdl = solve.prove(hyps + [solve.MARGIN == 0], term, timeout_ms, link=base + atom_links(p.ctx))
             if r == 'cex' and ints:
                 # the relaxed (integers as reals) problem has a model: decide with integrality
-                r, mdl = solve.prove(hyps + ints + [solve.MARGIN == 0], term, timeout_ms,
-                                     link=base + atom_links(p.ctx) + ints)
+                # (linearised: non-linear subterms abstracted; mixed Int/non-linear queries make z3
+                # diverge, so they are not attempted -- the relaxed model goes to replay instead)
+                fs = symx.intify(hyps + [solve.MARGIN == 0, term], ints)
+                lin, nnl = solve.abstract_nonlinear(fs[:-1] + [z3.Not(fs[-1])])
+                linpc = [f for f in p.pc[:plen] if solve.abstract_nonlinear([f])[1] == 0]
+                win = symx.intify(symx.int_windows(linpc, ints), ints)
+                r2, m2 = solve.check_sat(lin + win, timeout_ms)
+                if r2 == 'unsat':
+                    r, mdl = 'valid', None
+                elif r2 == 'sat' and nnl == 0:
+                    r, mdl = 'cex', m2
+                # else: keep the relaxed counter-model as a candidate
             if solve.STATS.trivial == before:
                 sig = (obname, z3.simplify(term).sexpr()[:2000])
                 if sig not in seen_keys:
@@ -438,7 +466,7 @@ def run_case(prop, name, h, timeout_ms=30000, max_paths=400, allow_exceptions=()
                     'path_condition': [str(z3.simplify(c))[:200] for c in p.pc[:plen]][:12],
                     'goal': str(z3.simplify(term))[:400], 'verdict': r})
             if r == 'cex':
-                _try_candidates(res, h, m.inputs, hyps + ints, z3.Not(term), obname, key, timeout_ms, prop)
+                _try_candidates(res, h, m.inputs, hyps, z3.Not(term), obname, key, timeout_ms, prop, ints)
             elif r == 'unknown':
                 res['inconclusive'].append(f'{obname}: solver unknown ({mdl})')
     if res['obligations'] and not res['vacuity']:
@@ -510,3 +538,13 @@ def Sqrt(x):
     if isinstance(x, SymReal):
         return x.sqrt()
     return math.sqrt(x)
+
+
+def sharded(prop, name, h, k, **kw):
+    """k cases that explore the same harness but each discharge every k-th obligation
+    (exploration is cheap, proving is not): lets one heavy harness use several cores"""
+    import functools
+    if k <= 1:
+        return [(name, functools.partial(run_case, prop, name, h, **kw))]
+    return [(f'{name}#shard{i + 1}of{k}', functools.partial(run_case, prop, name, h, shard=(i, k), **kw))
+            for i in range(k)]
